@@ -9,3 +9,6 @@ import PysamlModel.Props.C05
 #print axioms C05.C05_inside_accepted
 #print axioms C05.C05_model_meets_spec_complete
 #print axioms C05.C05_windows_attr
+#print axioms C05.verify_stale_instant
+#print axioms C05.C05_windows_factory
+#print axioms C05.C05_stale_instant_factory
